@@ -18,6 +18,16 @@
 (* `emit` / `tun` hold what the LAST step handed to the outside transport  *)
 (* resp. sent back into the tunnel: an invariant over them that holds in   *)
 (* every reachable state is a statement about every emission ever made.    *)
+(*                                                                         *)
+(* Part 3 (history): every packet carries the outside address it is for /  *)
+(* comes from, and the socket's dealings with every outside address are    *)
+(* remembered (`asked`, `sentTo`, `heard`).  The property says "the SAME   *)
+(* filter applies to what comes back": no step of the specification reads  *)
+(* these variables - an address gains no privilege from what happened      *)
+(* before (no "established flow").  They exist so that behaviours of the   *)
+(* kind  history -> input from/to an address with that history  are part   *)
+(* of the state space and of the recorded traces, and so that the          *)
+(* deviation FlowCache can be expressed (negative controls).               *)
 (***************************************************************************)
 EXTENDS ExitClassifier, FiniteSets
 
@@ -26,7 +36,15 @@ CONSTANTS QCap,            \* capacity of the waiting queue (deque(maxlen=10) in
           MaxOps,          \* model bound: number of steps of one behaviour
           NoInboundFilter, \* deviation (negative control): datagrams from outside are not filtered
           NoNullCheck,     \* deviation (negative control): destination 0.0.0.0:0 is not refused
-          AnyoneOpens      \* deviation (negative control): any source address may open the socket
+          AnyoneOpens,     \* deviation (negative control): any source address may open the socket
+          FlowCache,       \* deviation (negative control): "none" | "in_after_out" | "in_after_ask" | "in_after_in" |
+                           \*   "out_after_out" | "out_after_in": an address the socket dealt with skips the filter
+          TrackHistory,    \* model bound: FALSE = the history variables stay empty (they are read by nothing but the
+                           \*   deviation FlowCache and TypeOK; the history-free model covers more packets / sources)
+          HostIps,         \* model bound: IP addresses / host names of the outside world
+          HostPorts,       \* model bound: ports of the outside world
+          SrcSet,          \* model bound: sources of tunnel data used by the model checker (subset of Sources)
+          DkSet            \* model bound: destination kinds used by the model checker (subset of DestKinds)
 
 -----------------------------------------------------------------------------
 (* Part 2: one exit socket. *)
@@ -39,8 +57,18 @@ VARIABLES flags,   \* configured peer flags (constant during a behaviour)
           emit,    \* handed to an outside transport by the last step: Seq([p, dk])
           tun,     \* sent back into the tunnel by the last step: Seq([p, fam])
           opener,  \* "none" | source of the data that opened the socket
-          ops
-vars == <<flags, prefix, st, queue, pend, emit, tun, opener, ops>>
+          ops,
+          asked,   \* outside addresses named as destination by accepted tunnel data (or resolved for it)
+          sentTo,  \* outside addresses a packet was handed to an outside transport for
+          heard    \* outside addresses a datagram of which was sent back into the tunnel
+hist == <<asked, sentTo, heard>>
+vars == <<flags, prefix, st, queue, pend, emit, tun, opener, ops, asked, sentTo, heard>>
+
+(* an outside address; for a domain destination `ip` is the host name *)
+Addr(ip, port) == [ip |-> ip, port |-> port]
+NullAddr == Addr("0.0.0.0", 0)
+AddrsOf(s) == {s[i].a : i \in 1..Len(s)}
+Remember(known, new) == IF TrackHistory THEN known \cup new ELSE known
 
 Sources == {"prev", "port", "other"}   \* previous hop; previous hop's IP, other port; other IP
 DestKinds == {"v4", "v6", "dom4", "dom6", "domfail", "null"}
@@ -54,17 +82,25 @@ Push(q, x) == IF Len(q) < QCap THEN Append(q, x) ELSE Append(Tail(q), x)
 
 Ok(p) == Allowed(flags, p, prefix)
 
+(* the deviations: an address with a history is exempt from the filter (FALSE in the specification proper) *)
+TrustedOut(a) == \/ FlowCache = "out_after_out" /\ a \in sentTo
+                 \/ FlowCache = "out_after_in" /\ a \in heard
+TrustedIn(a) == \/ FlowCache = "in_after_out" /\ a \in sentTo
+                \/ FlowCache = "in_after_ask" /\ a \in asked
+                \/ FlowCache = "in_after_in" /\ a \in heard
+
 (* TunnelExitSocket.sendto in socket state s *)
-SendTo(s, q, pe, p, dk) ==
-    IF ~Ok(p) THEN [q |-> q, pe |-> pe, em |-> <<>>]
-    ELSE IF IsDom(dk) THEN [q |-> q, pe |-> Append(pe, [p |-> p, dk |-> dk]), em |-> <<>>]
-    ELSE IF ~HasTransport(s, dk) THEN [q |-> Push(q, [p |-> p, dk |-> dk]), pe |-> pe, em |-> <<>>]
-    ELSE [q |-> q, pe |-> pe, em |-> <<[p |-> p, dk |-> dk]>>]
+SendTo(s, q, pe, p, dk, a) ==
+    IF ~(Ok(p) \/ TrustedOut(a)) THEN [q |-> q, pe |-> pe, em |-> <<>>]
+    ELSE IF IsDom(dk) THEN [q |-> q, pe |-> Append(pe, [p |-> p, dk |-> dk, a |-> a]), em |-> <<>>]
+    ELSE IF ~HasTransport(s, dk) THEN [q |-> Push(q, [p |-> p, dk |-> dk, a |-> a]), pe |-> pe, em |-> <<>>]
+    ELSE [q |-> q, pe |-> pe, em |-> <<[p |-> p, dk |-> dk, a |-> a]>>]
 
 Quiet == /\ emit' = <<>> /\ tun' = <<>>
-         /\ UNCHANGED <<st, queue, pend, opener>>
+         /\ UNCHANGED <<st, queue, pend, opener, hist>>
 
-DataFromTunnel(src, dk, p) ==
+(* a: the destination address in the DATA cell (for dk = "null" it is NullAddr, for a domain the name and port) *)
+DataFromTunnel(src, dk, a, p) ==
     /\ ops < MaxOps
     /\ IsDom(dk) => Len(pend) < MaxPend
     /\ ops' = ops + 1 /\ UNCHANGED <<flags, prefix>>
@@ -72,45 +108,55 @@ DataFromTunnel(src, dk, p) ==
        ELSE IF dk = "null" /\ ~NoNullCheck THEN Quiet                    \* on_data: destination 0.0.0.0:0
        ELSE IF st = "disabled" /\ src = "other" /\ ~AnyoneOpens THEN Quiet   \* exit_data: wrong IP
        ELSE LET s1 == IF st = "disabled" THEN "enabling0" ELSE st
-                r == SendTo(s1, queue, pend, p, dk)
+                r == SendTo(s1, queue, pend, p, dk, a)
             IN /\ st' = s1
                /\ opener' = IF st = "disabled" THEN src ELSE opener
                /\ queue' = r.q /\ pend' = r.pe /\ emit' = r.em /\ tun' = <<>>
+               /\ asked' = Remember(asked, {a}) /\ sentTo' = Remember(sentTo, AddrsOf(r.em)) /\ UNCHANGED heard
 
 TransportReady ==
-    /\ ops < MaxOps /\ ops' = ops + 1 /\ UNCHANGED <<flags, prefix, pend, opener>>
+    /\ ops < MaxOps /\ ops' = ops + 1 /\ UNCHANGED <<flags, prefix, pend, opener, asked, heard>>
     /\ st \in {"enabling0", "enabling4"}
     /\ tun' = <<>>
     /\ IF st = "enabling0"
        THEN st' = "enabling4" /\ emit' = <<>> /\ UNCHANGED queue
        ELSE /\ st' = "ready"
-            /\ emit' = SelectSeq(queue, LAMBDA x : Ok(x.p))   \* the queue is flushed through sendto again
+            \* the queue is flushed through sendto again
+            /\ emit' = SelectSeq(queue, LAMBDA x : Ok(x.p) \/ TrustedOut(x.a))
             /\ queue' = <<>>
+    /\ sentTo' = Remember(sentTo, AddrsOf(emit'))
 
-ResolveDone(i) ==
-    /\ ops < MaxOps /\ ops' = ops + 1 /\ UNCHANGED <<flags, prefix, st, opener>>
+(* ip: the address the name resolved to (what the resolver answers is not under the exit node's control: any    *)
+(* address, also one the socket already dealt with); the port of the domain destination is kept                 *)
+ResolveDone(i, ip) ==
+    /\ ops < MaxOps /\ ops' = ops + 1 /\ UNCHANGED <<flags, prefix, st, opener, heard>>
     /\ st # "closed"
     /\ i \in 1..Len(pend)
     /\ tun' = <<>>
     /\ LET x == pend[i]
            rest == SubSeq(pend, 1, i - 1) \o SubSeq(pend, i + 1, Len(pend))
+           ra == Addr(ip, x.a.port)
        IN IF x.dk = "domfail"
-          THEN pend' = rest /\ emit' = <<>> /\ UNCHANGED queue
-          ELSE LET r == SendTo(st, queue, rest, x.p, Resolved(x.dk))
-               IN queue' = r.q /\ pend' = r.pe /\ emit' = r.em
+          THEN pend' = rest /\ emit' = <<>> /\ UNCHANGED <<queue, asked, sentTo>>
+          ELSE LET r == SendTo(st, queue, rest, x.p, Resolved(x.dk), ra)
+               IN /\ queue' = r.q /\ pend' = r.pe /\ emit' = r.em
+                  /\ asked' = Remember(asked, {ra}) /\ sentTo' = Remember(sentTo, AddrsOf(r.em))
 
 (* fam: "v4" | "v6" | "v6mapped" (an IPv4-mapped source on the IPv6 socket; the property is silent about it) *)
-OutsideDatagram(fam, p) ==
-    /\ ops < MaxOps /\ ops' = ops + 1 /\ UNCHANGED <<flags, prefix, st, queue, pend, opener>>
+(* a: the source address of the datagram - whoever it is and whatever the socket did with that address before,  *)
+(* the datagram goes through the same filter as outbound data                                                   *)
+OutsideDatagram(fam, a, p) ==
+    /\ ops < MaxOps /\ ops' = ops + 1 /\ UNCHANGED <<flags, prefix, st, queue, pend, opener, asked, sentTo>>
     /\ HasTransport(st, IF fam = "v4" THEN "v4" ELSE "v6")
     /\ emit' = <<>>
-    /\ IF Ok(p) \/ NoInboundFilter
-       THEN IF fam = "v6mapped" THEN tun' \in {<<>>, <<[p |-> p, fam |-> fam]>>}
-                                ELSE tun' = <<[p |-> p, fam |-> fam]>>
+    /\ IF Ok(p) \/ NoInboundFilter \/ TrustedIn(a)
+       THEN IF fam = "v6mapped" THEN tun' \in {<<>>, <<[p |-> p, fam |-> fam, a |-> a]>>}
+                                ELSE tun' = <<[p |-> p, fam |-> fam, a |-> a]>>
        ELSE tun' = <<>>
+    /\ heard' = Remember(heard, AddrsOf(tun'))
 
 Close ==
-    /\ ops < MaxOps /\ ops' = ops + 1 /\ UNCHANGED <<flags, prefix, opener>>
+    /\ ops < MaxOps /\ ops' = ops + 1 /\ UNCHANGED <<flags, prefix, opener, hist>>
     /\ st # "closed"
     /\ st' = "closed" /\ queue' = <<>> /\ pend' = <<>> /\ emit' = <<>> /\ tun' = <<>>
 
@@ -134,11 +180,15 @@ Init == /\ flags \in SUBSET {"BT", "IPV8", "RELAY"}
         /\ prefix = TunnelPrefix
         /\ st = "disabled" /\ queue = <<>> /\ pend = <<>> /\ emit = <<>> /\ tun = <<>>
         /\ opener = "none" /\ ops = 0
+        /\ asked = {} /\ sentTo = {} /\ heard = {}
 
-Next == \/ \E src \in Sources, dk \in DestKinds, r \in RepIds : DataFromTunnel(src, dk, Reps[r])
+AddrSet == {Addr(ip, port) : ip \in HostIps, port \in HostPorts}
+
+Next == \/ \E src \in SrcSet, dk \in DkSet, r \in RepIds :
+              \E a \in (IF dk = "null" THEN {NullAddr} ELSE AddrSet) : DataFromTunnel(src, dk, a, Reps[r])
         \/ TransportReady
-        \/ \E i \in 1..MaxPend : ResolveDone(i)
-        \/ \E fam \in {"v4", "v6", "v6mapped"}, r \in RepIds : OutsideDatagram(fam, Reps[r])
+        \/ \E i \in 1..MaxPend, ip \in HostIps : ResolveDone(i, ip)
+        \/ \E fam \in {"v4", "v6", "v6mapped"}, a \in AddrSet, r \in RepIds : OutsideDatagram(fam, a, Reps[r])
         \/ Close
 
 Spec == Init /\ [][Next]_vars
@@ -149,8 +199,11 @@ Spec == Init /\ [][Next]_vars
 TypeOK == /\ st \in {"disabled", "enabling0", "enabling4", "ready", "closed"}
           /\ Len(queue) <= QCap
           /\ opener \in Sources \cup {"none"}
+          /\ TrackHistory => /\ AddrsOf(emit) \subseteq sentTo /\ sentTo \subseteq asked
+                              /\ AddrsOf(tun) \subseteq heard /\ AddrsOf(queue) \subseteq asked
 
-(* both directions: whatever reaches the outside or re-enters the tunnel passes the policy *)
+(* both directions: whatever reaches the outside or re-enters the tunnel passes the policy - in every reachable   *)
+(* state, i.e. after every history of the socket with the address concerned                                        *)
 EmitOnlyAllowed == /\ \A i \in 1..Len(emit) : Ok(emit[i].p)
                    /\ \A i \in 1..Len(tun) : Ok(tun[i].p)
 
